@@ -496,6 +496,7 @@ def run(ctx, res):
     rule_who_writes(ctx, res)
     rule_good_filters(ctx, res)
     rule_queries_mark_only(ctx, res)
+    common.rule_request_mark_sites(ctx, res)
     common.rule_find_node_identity(ctx, res)
     # "good only if it answered one of this node's queries": a response reaches the table only for a live search or the refresh
     from . import c12
